@@ -2,6 +2,7 @@ package main
 
 import (
 	"fmt"
+	am "github.com/hashicorp/go-argmapper"
 	"math/rand"
 )
 
@@ -252,7 +253,27 @@ func init() {
 				zeroErrs = 1 + r.Intn(4)
 				res.obs("cases_with_zero_valued_error_values", 1)
 			}
-			outs, _ := runScenarioX(c, s, r, reps, &res, func(in *Inst) { in.W.UnsatErrors = unsatErrs; in.W.ZeroErrors = zeroErrs }, func(in *Inst, o *Outcome) {
+			// one case in four: converters that declare an error and do not
+			// fail by spec may fail on their SECOND execution (the second
+			// call on the same objects), run-once ones excluded
+			failLater := map[int]bool{}
+			if r.Intn(4) == 0 {
+				for i, cv := range s.Convs {
+					if cv.HasErr && !cv.Fail && !cv.Once && r.Intn(2) == 0 {
+						failLater[i] = true
+					}
+				}
+				if len(failLater) > 0 {
+					res.obs("cases_with_converters_failing_on_a_later_execution", 1)
+				}
+			}
+			outs, _ := runScenarioX(c, s, r, reps, &res, func(in *Inst) {
+				in.W.UnsatErrors = unsatErrs
+				in.W.ZeroErrors = zeroErrs
+				if len(failLater) > 0 {
+					in.W.FailOn = func(fi, exec int, specFail bool) bool { return specFail || (exec >= 1 && failLater[fi]) }
+				}
+			}, func(in *Inst, o *Outcome) {
 				det := map[string]interface{}{"scenario": s.String(), "class": o.Class, "err": firstLine(errStr(o.Err)), "events": eventsStr(o.Events), "unsat_typed_errors": unsatErrs}
 				for _, e := range o.Events {
 					if e.Err != nil && e.Func >= 0 {
@@ -283,6 +304,33 @@ func init() {
 				for i, cv := range in.Convs {
 					if cv.Spec.Once && before[i] >= 1 && in.W.Execs(i) != before[i] {
 						res.violate("C11", "once-reexecuted", fmt.Sprintf("run-once converter c%d executed again on a second call", i), det)
+					}
+				}
+				// a function derived by Redefine whose plan goes through the
+				// converters: a converter failing INSIDE it makes its call
+				// return exactly that error, like any other call
+				if r.Intn(3) == 0 {
+					if ro := DoRedefine(in.W, in.Target.Func, append(in.AllArgs(2, r), am.FilterInput(inputTypesFilter(&s)))); ro.Func != nil && ro.Err == nil {
+						rargs, _, _ := redefinedArgs(in.W, ro.Func, 3, r)
+						o3 := DoCall(in.W, ro.Func, rargs)
+						res.Evals++
+						var ff *Event
+						for _, e := range o3.Events {
+							if e.Err != nil {
+								ff = e
+								break
+							}
+						}
+						d3 := map[string]interface{}{"scenario": s.String(), "class": o3.Class, "err": firstLine(errStr(o3.Err)), "events": eventsStr(o3.Events)}
+						if ff != nil {
+							if o3.Err != ff.Err {
+								res.violate("C04", "error-not-verbatim", fmt.Sprintf("f%d failed inside a redefined function; its call returned %q", ff.Func, firstLine(errStr(o3.Err))), d3)
+							}
+							if last := o3.Events[len(o3.Events)-1]; last != ff {
+								res.violate("C04", "continued-after-error", fmt.Sprintf("f%d failed inside a redefined function but f%d was executed afterwards", ff.Func, last.Func), d3)
+							}
+							res.obs("failing_executions_inside_redefined_functions", 1)
+						}
 					}
 				}
 				if o.Class == ClsConvErr && o2.Class == ClsConvErr && o.Err != o2.Err {
